@@ -110,6 +110,50 @@ theorem readBranches_ind {pl : Plug π β} (I : List Branch → Repo β → Prop
           have := hF2 j b' rb' hb' hrb'
           simpa using this
 
+/-- like `readBranches_ind`, but the recorded fact may mention the repository state right after the branch, and a
+transitive relation `K` links that state to the final one -/
+theorem readBranches_ind2 {pl : Plug π β} (I : List Branch → Repo β → Prop)
+    (F : List Branch → Branch → Repo β → RBranch β → Prop) (K : Repo β → Repo β → Prop)
+    (Krefl : ∀ rp, K rp rp) (Ktrans : ∀ {a b c}, K a b → K b c → K a c)
+    (hstep : ∀ pre rp b rp' rb, I pre rp → readBranch h pl pre.isEmpty rp b = .ok (rp', rb) →
+      I (pre ++ [b]) rp' ∧ F pre b rp' rb ∧ K rp rp') :
+    ∀ (bs pre : List Branch) (rp rp' : Repo β) (rbs : List (RBranch β)), I pre rp →
+      readBranches h pl pre.isEmpty rp bs = .ok (rp', rbs) →
+      I (pre ++ bs) rp' ∧ K rp rp' ∧ rbs.length = bs.length ∧
+      ∀ j b rb, bs[j]? = some b → rbs[j]? = some rb → ∃ rpj, F (pre ++ bs.take j) b rpj rb ∧ K rpj rp' := by
+  intro bs
+  induction bs with
+  | nil =>
+    intro pre rp rp' rbs hI hr
+    simp [readBranches] at hr
+    obtain ⟨rfl, rfl⟩ := hr
+    simp [hI, Krefl]
+  | cons b bs ih =>
+    intro pre rp rp' rbs hI hr
+    simp only [readBranches] at hr
+    split at hr
+    · cases hr
+    · rename_i rp1 rb hrb
+      split at hr
+      · cases hr
+      · rename_i rp2 rbs' hrbs
+        cases hr
+        obtain ⟨hI1, hF1, hK1⟩ := hstep pre rp b rp1 rb hI hrb
+        have hne : (pre ++ [b]).isEmpty = false := by simp
+        rw [← hne] at hrbs
+        obtain ⟨hI2, hK2, hlen, hF2⟩ := ih (pre ++ [b]) rp1 rp' rbs' hI1 hrbs
+        refine ⟨by simpa using hI2, Ktrans hK1 hK2, by simp [hlen], ?_⟩
+        intro j b' rb' hb' hrb'
+        cases j with
+        | zero =>
+          simp at hb' hrb'
+          subst hb'; subst hrb'
+          exact ⟨rp1, by simpa using hF1, hK2⟩
+        | succ j =>
+          simp at hb' hrb'
+          obtain ⟨rpj, h1, h2⟩ := hF2 j b' rb' hb' hrb'
+          exact ⟨rpj, by simpa using h1, h2⟩
+
 /-! ### `endBranch` -/
 
 theorem notMerged_mem (seen : List Nat) : ∀ (l : List RC) (i k : Nat),
